@@ -1355,6 +1355,9 @@ class Bits:
         # Search chunks starting near the end and then moving back.
         c = 0
         increment = max(8192, len(bs) * 80)
+        if _verif_os.environ.get('SCOTT_GRIFFITHS_BITSTRING_VERIF') == '1':
+            # Verification hook: lets a harness cross the chunk boundary with small data. Inactive unless the variable is set.
+            increment = getattr(bitstring, '_verif_findall_chunk_bits', increment)
         buffersize = min(increment + len(bs), msb0_end - msb0_start)
         pos = max(msb0_start, msb0_end - buffersize)
         while True:
